@@ -285,3 +285,24 @@ _c02_obl4 = obligations
 def obligations():
     return _c02_obl4() + [Ob('O2.6-string-literal-legal-go-1', 'every string literal is emitted as a legal Go interpreted string literal: 1 item', ob_literal_valid_go, ('quick', 'thorough'), 1, dict(items=1)),
                           Ob('O2.6-string-literal-legal-go-2', 'same: 2 items', ob_literal_valid_go, ('quick', 'thorough'), 3, dict(items=2))]
+
+# ----------------------------------------------------------------------------- O2.7 every expression statement DCE leaves is one Go allows
+def ob_stmt_expr_legal(r, tier, seed, **kw):
+    """same exploration as C09 O9.2 with the Go builtins / conversions the backend emits for vec_push / vec_len among the initialisers; under C02 only
+    `the output has an expression statement Go rejects` counts"""
+    from props import c09
+    c09.ob_block_dce(r, tier, seed, **kw)
+    r.findings = [f for f in r.findings if f.key in ('illegal-expression-statement', 'panic')]
+    for f in r.findings:
+        if f.key != 'illegal-expression-statement': continue
+        src = 'fn main() -> unit {\n    let v: Vec[int32] = vec_new();\n    let v2 = vec_push(v, 1);\n    let _ = vec_len(v2);\n    let _ = vec_push(v2, 2);\n    string_println("x")\n}\n'
+        d = tempfile.mkdtemp(prefix='vf-c02s-')
+        try:
+            open(os.path.join(d, 'main.gom'), 'w').write(src)
+            out = subprocess.run([build.compiler_bin(), 'run', '--dump-go', os.path.join(d, 'main.gom')], capture_output=True, text=True, timeout=60).stdout
+        finally: shutil.rmtree(d, ignore_errors=True)
+        bad = [l.strip() for l in out.splitlines() if re.match(r'^\s*(append|len|cap|int32)\(', l)]
+        f.replayed = bool(bad); f.replay_detail = 'goml `%s`: the emitted Go has the statements %s' % (src.replace('\n', ' | '), bad)
+_c02_obl7 = obligations
+def obligations():
+    return _c02_obl7() + [Ob('O2.7-expression-statements-legal', 'an unused initialiser kept for its effect is never left as an expression statement Go rejects (append / len / conversions)', ob_stmt_expr_legal, ('quick', 'thorough'), 10, dict(nstmts=2, depth=0, forms=('atom', 'call', 'builtin')))]
